@@ -5,7 +5,7 @@
 import Nstd.Future.Safety8
 set_option linter.unusedSimpArgs false
 set_option linter.unusedVariables false
-namespace Nstd.Future
+namespace Nstd.Future.Safe
 
 /-- the frames of `run` between `Mutex::Guard` and its release (level frames) -/
 def isLM : Frame → Bool
@@ -333,4 +333,4 @@ theorem pool_mutex_exclusive {cfg : Config} {s : State} (h : Reach cfg s) {t u :
     have h2 := (reach_minv h).mx u thu p hu hpp hmu
     rw [h1] at h2; injection h2
 
-end Nstd.Future
+end Nstd.Future.Safe
